@@ -198,7 +198,8 @@ Definition bad_apis (T : table) : list (string * string) :=
 
 (* ---------------------------------------------------------------- outcome classes (component 17) *)
 (* error classes: 0 nil 1 ErrNotLeader 2 ErrLeadershipLost 3 ErrRaftShutdown 4 ErrEnqueueTimeout
-   5 ErrCantBootstrap 6 ErrLeadershipTransferInProgress 7 ErrNothingNewToSnapshot 8 other *)
+   5 ErrCantBootstrap 6 ErrLeadershipTransferInProgress 7 ErrNothingNewToSnapshot 8 other
+   9 ErrAbortedByRestore *)
 Definition code_of (arg : string) : list N :=
   if String.eqb arg "ErrNotLeader" then [1]
   else if String.eqb arg "nil" then [0]
@@ -239,12 +240,13 @@ Definition running_codes (T : table) (api role : N) : list N :=
   end.
 
 (* phase: 0 running; 1 racing Shutdown; 2 after a completed Shutdown; 3 leader deposed after the
-   call; 4 Shutdown after the call *)
+   call; 4 Shutdown after the call; 5 a user Restore after the call *)
 Definition allowed_codes (T : table) (api role phase : N) : list N :=
   match phase with
   | 0 => running_codes T api role
   | 2 => if api =? 9 then [0] else [3]
   | 3 => running_codes T api role ++ [2; 1]
+  | 5 => running_codes T api role ++ [9]     (* a user Restore fails what is in flight with ErrAbortedByRestore *)
   | _ => running_codes T api role ++ [3] ++ (if 3 <=? role then [2] else [])
   end.
 
